@@ -312,8 +312,13 @@ def render_module(spec, m: int, src_value=None) -> str:
         dep_names = [f"d{n}" for n in deps]
         prod_names = [f"p{i}" for i in range(len(prods))]
         if style == "kwargs" and deps:
-            deco_kwargs.append("kwargs={" + ", ".join(f"'{nm}': DATA / 'n{n}.txt'" for nm, n in zip(dep_names, deps)) + "}")
-            params += dep_names
+            # optional spec field "kw_split": only the first k dependencies travel in @task(kwargs=…), the others are declared as
+            # parameter defaults of the same function (both declaration forms on one task)
+            ks = t.get("kw_split")
+            k = len(deps) if ks is None else max(1, min(int(ks), len(deps)))
+            deco_kwargs.append("kwargs={" + ", ".join(f"'{nm}': DATA / 'n{n}.txt'" for nm, n in zip(dep_names[:k], deps[:k])) + "}")
+            params += dep_names[:k]
+            params += [f"{nm}: Path = DATA / 'n{n}.txt'" for nm, n in zip(dep_names[k:], deps[k:])]
         elif style == "annotated":
             for nm, n in zip(dep_names, deps):
                 cls = "PathNode"
